@@ -2,6 +2,7 @@ import HmcVerif.Model.Integrator
 import HmcVerif.Model.Metropolis
 import HmcVerif.Real.Kernel
 import HmcVerif.Real.Volume
+import HmcVerif.Real.BoxedKernel
 import HmcVerif.Props.C01
 import Mathlib.MeasureTheory.Measure.Lebesgue.Basic
 import Mathlib.MeasureTheory.Measure.Prod
@@ -177,6 +178,82 @@ theorem rwmh_ratio (U : Vec ι → ℝ) (q q' z : Vec ι) :
   simp [energy]
 end hmc
 
+/-! ### boxed targets, one coordinate: stationarity **with** reflections
+
+   The target lives on `l < q < u` (density `exp(−U(q))` there, zero outside); every drift is followed by the
+   corrector (`cdriftMap`), however many walls it crosses.  `w` is the inverse mass of the coordinate, `g` the
+   gradient the code evaluates (any measurable function - it need not be the derivative of `U`).
+   Partial with respect to the property: one coordinate (a Unit / Diagonal metric acts coordinate by
+   coordinate, but the product over coordinates is not stated here). -/
+section boxed
+def energy1 (U K : ℝ → ℝ) (z : ℝ × ℝ) : ℝ := U z.1 + K z.2
+noncomputable def gibbs1 (U K : ℝ → ℝ) (z : ℝ × ℝ) : ℝ≥0∞ := ENNReal.ofReal (Real.exp (-energy1 U K z))
+noncomputable def psi1 (l u w : ℝ) (g : ℝ → ℝ) (ops : List (Op ℝ)) (z : ℝ × ℝ) : ℝ × ℝ := flip1 (traj1 l u w g ops z)
+noncomputable def acceptProb1 (U K : ℝ → ℝ) (Ψ : ℝ × ℝ → ℝ × ℝ) (z : ℝ × ℝ) : ℝ≥0∞ :=
+  ENNReal.ofReal (min 1 (Real.exp (energy1 U K z - energy1 U K (Ψ z))))
+
+theorem psi1_measurePreserving (l u w : ℝ) (hlu : l < u) (g : ℝ → ℝ) (hg : Measurable g) (ops : List (Op ℝ)) :
+    MeasurePreserving (psi1 l u w g ops) (volume.restrict (openStrip l u)) (volume.restrict (openStrip l u)) :=
+  (flip1_mp_strip l u).comp (traj1_mp_strip l u w hlu g hg ops)
+
+/-- **joint invariance in a box**: the Metropolis-corrected trajectory with reflections leaves
+    `exp(−U(q) − K(p))` restricted to the box invariant - every palindromic op list, every box of positive
+    width, every drift length -/
+theorem boxed_joint_invariant_1d (l u w : ℝ) (hlu : l < u) (U K : ℝ → ℝ) (hU : Measurable U) (hK : Measurable K)
+    (g : ℝ → ℝ) (hg : Measurable g) (ops : List (Op ℝ)) (hp : ops.reverse = ops)
+    (G : ℝ × ℝ → ℝ≥0∞) (hG : Measurable G) :
+    ∫⁻ z, gibbs1 U K z * metropolisOp (psi1 l u w g ops) (acceptProb1 U K (psi1 l u w g ops)) G z
+        ∂(volume.restrict (openStrip l u))
+      = ∫⁻ z, gibbs1 U K z * G z ∂(volume.restrict (openStrip l u)) := by
+  have hΨ := psi1_measurePreserving l u w hlu g hg ops
+  have hH : Measurable (energy1 U K) := (hU.comp measurable_fst).add (hK.comp measurable_snd)
+  apply metropolis_invariant_ae _ _ hΨ (psi1_involution_ae l u w hlu g hg ops hp)
+  · exact ENNReal.measurable_ofReal.comp (Real.measurable_exp.comp hH.neg)
+  · exact ENNReal.measurable_ofReal.comp
+      (measurable_const.min (Real.measurable_exp.comp (hH.sub (hH.comp hΨ.measurable))))
+  · intro x; exact ENNReal.ofReal_ne_top
+  · intro x; exact rule_is_min (energy1 U K) _ x
+  · exact hG
+
+/-- the kernel as the code runs it on one boxed coordinate (no momentum flip, the position is kept) -/
+noncomputable def codeKernel1 (l u w : ℝ) (U K : ℝ → ℝ) (g : ℝ → ℝ) (ops : List (Op ℝ)) (f : ℝ → ℝ≥0∞) (z : ℝ × ℝ) : ℝ≥0∞ :=
+  ENNReal.ofReal (min 1 (Real.exp (energy1 U K z - energy1 U K (traj1 l u w g ops z)))) * f (traj1 l u w g ops z).1
+    + (1 - ENNReal.ofReal (min 1 (Real.exp (energy1 U K z - energy1 U K (traj1 l u w g ops z))))) * f z.1
+
+/-- **stationarity of the position in a box**: `q` from the boxed target, `p` from the momentum refresh,
+    then `E[f(q')] = E[f(q)]` for every test function -/
+theorem boxed_position_invariant_1d (l u w : ℝ) (hlu : l < u) (U K : ℝ → ℝ) (hU : Measurable U) (hK : Measurable K)
+    (hKeven : ∀ p, K (-p) = K p) (g : ℝ → ℝ) (hg : Measurable g) (ops : List (Op ℝ)) (hp : ops.reverse = ops)
+    (f : ℝ → ℝ≥0∞) (hf : Measurable f) :
+    ∫⁻ z, gibbs1 U K z * codeKernel1 l u w U K g ops f z ∂(volume.restrict (openStrip l u))
+      = ∫⁻ z, gibbs1 U K z * f z.1 ∂(volume.restrict (openStrip l u)) := by
+  have h := boxed_joint_invariant_1d l u w hlu U K hU hK g hg ops hp (fun z => f z.1) (hf.comp measurable_fst)
+  rw [← h]
+  congr 1; funext z
+  have e : ∀ y : ℝ × ℝ, energy1 U K (flip1 y) = energy1 U K y := fun y => by simp [energy1, flip1, hKeven]
+  simp only [codeKernel1, metropolisOp, acceptProb1, psi1, e]
+  rfl
+
+/-- HMC on one boxed coordinate: all integrators, all `n`, all `h`, all coefficient sets -/
+theorem boxed_hmc_invariant_1d (l u w : ℝ) (hlu : l < u) (U K : ℝ → ℝ) (hU : Measurable U) (hK : Measurable K)
+    (hKeven : ∀ p, K (-p) = K p) (g : ℝ → ℝ) (hg : Measurable g)
+    (c : Coeffs ℝ) (i : Integrator) (h : ℝ) (n : Nat) (f : ℝ → ℝ≥0∞) (hf : Measurable f) :
+    ∫⁻ z, gibbs1 U K z * codeKernel1 l u w U K g (schedule c i h n) f z ∂(volume.restrict (openStrip l u))
+      = ∫⁻ z, gibbs1 U K z * f z.1 ∂(volume.restrict (openStrip l u)) :=
+  boxed_position_invariant_1d l u w hlu U K hU hK hKeven g hg _ (C01.schedule_palindrome c i h n) f hf
+
+/-- the model's trajectory on one coordinate is `traj1`: `stepOp` with the diagonal velocity `w · p` and the
+    box corrector, read on `ι = Unit` -/
+theorem traj1_is_model_step (l u w : ℝ) (g : ℝ → ℝ) (o : Op ℝ) (z : ℝ × ℝ) :
+    step1 l u w g z o =
+      (let s := stepOp (C01.diagVel (fun _ : Unit => w)) (fun q _ => g (q ()))
+          (C01.boxRefl (fun _ => some l) (fun _ => some u)) ⟨fun _ => z.1, fun _ => z.2⟩ o
+       (s.q (), s.p ())) := by
+  cases o with
+  | drift c => simp [step1, stepOp, C01.boxRefl, C01.diagVel, cdriftMap, cdrift1, mul_assoc]
+  | kick c => simp [step1, stepOp, kick1]
+end boxed
+
 /-! ### step-size randomisation: a state-independent mixture of invariant kernels is invariant -/
 section mixture
 variable {X Ω : Type*} [MeasurableSpace X] [MeasurableSpace Ω] (μ : Measure X) [SFinite μ]
@@ -199,6 +276,13 @@ theorem mixture_invariant (π : X → ℝ≥0∞) (hπ : Measurable π)
     simp
   · exact ((hπ.comp measurable_fst).mul hjoint).aemeasurable
 end mixture
+
+/-! ### non-vacuity of the boxed theorems: a concrete box, potential, kinetic energy and gradient meet the hypotheses,
+    and the strip carries mass (`volume.restrict (openStrip 0 1) ≠ 0`) -/
+example : (0:ℝ) < 1 ∧ Measurable (fun q : ℝ => q ^ 2 / 2) ∧ Measurable (fun p : ℝ => p ^ 2 / 2)
+    ∧ (∀ p : ℝ, (fun p : ℝ => p ^ 2 / 2) (-p) = (fun p : ℝ => p ^ 2 / 2) p) ∧ Measurable (fun q : ℝ => q) := by
+  refine ⟨by norm_num, by fun_prop, by fun_prop, fun p => by simp, measurable_id⟩
+example : ((1/2, 9/4) : ℝ × ℝ) ∈ openStrip 0 1 := by constructor <;> norm_num
 
 end C04
 end HmcVerif
